@@ -282,6 +282,22 @@ def run(ck, F):
             raise AnalysisBroken(f'{fid}: {e}')
         first_nodes = [i for i, p in enumerate(paths) if 'accessors' in p]
         hits = [i for i, p in enumerate(paths) if pred(p)]
+        if name == 'get_as_type(Identifier)':
+            # the search summarised as `some element of the range ...`: the range must be the built-in table itself, whole -- not a
+            # part of it, nor another object (a span over the tail of the table skips the rows in front of it)
+            rawp = [p_ for p_ in S.run(fid) if p_[1] == 'return']
+            ranges = set()
+            for st_, _k, v_ in rawp:
+                t_ = v_
+                while isinstance(t_, tuple) and t_ and t_[0] in ('addr', 'deref'):
+                    t_ = t_[1]
+                if isinstance(t_, tuple) and t_[:1] == ('elem',):
+                    ranges.add(t_[1])
+            other = sorted(contracts.render(r_, rawp[0][0], {}) for r_ in ranges if r_ != ('global', bt['q']))
+            if other:
+                ck.fail(R5, name, f'{fid}: the built-in spelling is searched for in {other}, not in the whole table {bt["q"]}: the rows outside '
+                        'that range are never matched and their spelling yields a look-alike', loc=f['loc'], fn=fid)
+                continue
         if not hits and name == 'get_as_type(Identifier)':
             # the same search written as an index loop: every row of the table must be tried, by identity of its name
             import re
